@@ -21,15 +21,15 @@ import (
 
 func init() { registerKind("overlap", genOverlap, "overlap", runOverlapCase) }
 
-// rawObserver implements ro.Observer[int] directly
-type rawObserver struct {
+// overlapObserver implements ro.Observer[int] directly
+type overlapObserver struct {
 	inside, maxInside int32
 	after             int32 // deliveries after a terminal
 	done              int32
 	n                 int64
 }
 
-func (o *rawObserver) enter() {
+func (o *overlapObserver) enter() {
 	v := atomic.AddInt32(&o.inside, 1)
 	for {
 		m := atomic.LoadInt32(&o.maxInside)
@@ -45,16 +45,16 @@ func (o *rawObserver) enter() {
 		runtime.Gosched()
 	}
 }
-func (o *rawObserver) leave()                                          { atomic.AddInt32(&o.inside, -1) }
-func (o *rawObserver) Next(v int)                                      { o.NextWithContext(context.Background(), v) }
-func (o *rawObserver) NextWithContext(ctx context.Context, v int)      { o.enter(); atomic.AddInt64(&o.n, 1); o.leave() }
-func (o *rawObserver) Error(err error)                                 { o.ErrorWithContext(context.Background(), err) }
-func (o *rawObserver) ErrorWithContext(ctx context.Context, err error) { o.enter(); atomic.StoreInt32(&o.done, 1); o.leave() }
-func (o *rawObserver) Complete()                                       { o.CompleteWithContext(context.Background()) }
-func (o *rawObserver) CompleteWithContext(ctx context.Context)         { o.enter(); atomic.StoreInt32(&o.done, 1); o.leave() }
-func (o *rawObserver) IsClosed() bool                                  { return false }
-func (o *rawObserver) HasThrown() bool                                 { return false }
-func (o *rawObserver) IsCompleted() bool                               { return false }
+func (o *overlapObserver) leave()                                          { atomic.AddInt32(&o.inside, -1) }
+func (o *overlapObserver) Next(v int)                                      { o.NextWithContext(context.Background(), v) }
+func (o *overlapObserver) NextWithContext(ctx context.Context, v int)      { o.enter(); atomic.AddInt64(&o.n, 1); o.leave() }
+func (o *overlapObserver) Error(err error)                                 { o.ErrorWithContext(context.Background(), err) }
+func (o *overlapObserver) ErrorWithContext(ctx context.Context, err error) { o.enter(); atomic.StoreInt32(&o.done, 1); o.leave() }
+func (o *overlapObserver) Complete()                                       { o.CompleteWithContext(context.Background()) }
+func (o *overlapObserver) CompleteWithContext(ctx context.Context)         { o.enter(); atomic.StoreInt32(&o.done, 1); o.leave() }
+func (o *overlapObserver) IsClosed() bool                                  { return false }
+func (o *overlapObserver) HasThrown() bool                                 { return false }
+func (o *overlapObserver) IsCompleted() bool                               { return false }
 
 // goroutine-driven sequential source: emits `count` values then completes
 func pumpSource(count int, base int) ro.Observable[int] {
@@ -111,7 +111,7 @@ func runOverlapCase(c *Case) string {
 			}
 			obs = mk()(obs)
 		}
-		o := &rawObserver{}
+		o := &overlapObserver{}
 		var wg sync.WaitGroup
 		wg.Add(1)
 		var sub ro.Subscription
